@@ -448,6 +448,8 @@ func (l *Local) Allocate(ctx context.Context, cni *daemon.CNI, request ResourceR
 	if ok1 && ok2 {
 		// direct return
 		respCh := make(chan *AllocResp)
+		// an ip the pod already holds (repeated ADD) must survive a rollback of this request
+		keepV4, keepV6 := heldBy(ipv4, cni.PodID), heldBy(ipv6, cni.PodID)
 		// assign ip to pod , as we are ready
 		// this must be protected by lock
 		if ipv4 != nil {
@@ -461,7 +463,7 @@ func (l *Local) Allocate(ctx context.Context, cni *daemon.CNI, request ResourceR
 			l.cond.L.Lock()
 			defer l.cond.L.Unlock()
 
-			l.commit(ctx, respCh, ipv4, ipv6, cni.PodID)
+			l.commitKeep(ctx, respCh, ipv4, ipv6, cni.PodID, keepV4, keepV6)
 		}()
 		return respCh, nil
 	}
@@ -633,7 +635,7 @@ func (l *Local) allocWorker(ctx context.Context, cni *daemon.CNI, request *Local
 			}
 		}
 
-		l.commit(ctx, respCh, ipv4, ipv6, cni.PodID)
+		l.commitKeep(ctx, respCh, ipv4, ipv6, cni.PodID, heldBy(ipv4, cni.PodID), heldBy(ipv6, cni.PodID))
 
 		return
 	}
@@ -1044,9 +1046,19 @@ func (l *Local) Status() Status {
 	return s
 }
 
+// heldBy reports whether the ip is already allocated to the pod
+func heldBy(ip *IP, podID string) bool {
+	return ip != nil && podID != "" && ip.podID == podID
+}
+
 // commit send the allocated ip result to respCh
 // if ctx canceled, the respCh will be closed
 func (l *Local) commit(ctx context.Context, respCh chan *AllocResp, ipv4, ipv6 *IP, podID string) {
+	l.commitKeep(ctx, respCh, ipv4, ipv6, podID, false, false)
+}
+
+// commitKeep is commit, except that on rollback an ip the pod held before this request (keepV4, keepV6) stays allocated
+func (l *Local) commitKeep(ctx context.Context, respCh chan *AllocResp, ipv4, ipv6 *IP, podID string, keepV4, keepV6 bool) {
 	var ip types.IPSet2
 	if ipv4 != nil {
 		ip.IPv4 = ipv4.ip
@@ -1069,10 +1081,10 @@ func (l *Local) commit(ctx context.Context, respCh chan *AllocResp, ipv4, ipv6 *
 	})
 	select {
 	case <-ctx.Done():
-		if ipv4 != nil {
+		if ipv4 != nil && !keepV4 {
 			ipv4.Release(podID)
 		}
-		if ipv6 != nil {
+		if ipv6 != nil && !keepV6 {
 			ipv6.Release(podID)
 		}
 
